@@ -572,7 +572,7 @@ int main(int argc, char **argv) {
         gHist.clear();
         gCaseFailed = false;
         LifeRegistry::get().reset();
-        if (!life && rng.chance((unsigned) rt::optInt("huge", 1))) { if (rng.chance(500)) runHugeRing<true>(rng); else runHugeRing<false>(rng); continue; }
+        if (!life && rng.chance((unsigned) rt::optInt("huge", 0))) { if (rng.chance(500)) runHugeRing<true>(rng); else runHugeRing<false>(rng); continue; }
         const std::string &t = tl[rng.below(tl.size())];
         bool ow = rng.chance(500);
         int steps = (int) (rng.chance(300) ? rng.range(1, 25) : rng.range(20, maxSteps));
